@@ -146,6 +146,31 @@ func encStringerNoise(format string) {
 	l.Info("a record of a logger with a value stringer of its own", "k", "v w\nx=1", "g", slog.NewGroupedAttr("in", slog.NewAttr("a", 1)))
 }
 
+// encPanicNoise: a record one of whose values panics while it is rendered; the application recovers and goes on
+// logging. What that record had begun stays with it.
+type encPanicker struct{}
+
+func (encPanicker) String() string { panic("a value whose String() panics") }
+
+func encPanicNoise(format string) {
+	rec := &recorder{}
+	l := slog.New("with-a-panicking-value").SetWriter(rec).SetErrorWriter(rec).SetLevel(slog.TraceLevel)
+	switch format {
+	case "j":
+		l.SetJSONMode(true)
+	case "l":
+		l.SetColorMode(false)
+	}
+	func() {
+		defer func() { _ = recover() }()
+		l.Info("a record with a value that panics", "stale1", 1, "victim", encPanicker{}, "zafter", 2)
+	}()
+	func() {
+		defer func() { _ = recover() }()
+		l.Info("… and one inside a group", "grp", slog.NewGroupedAttr("inner", slog.NewAttr("boom", encPanicker{})), "stale2", "x")
+	}()
+}
+
 // chattyW logs a record of its own from inside Write.
 type chattyW struct{ side slog.Logger }
 
